@@ -11,7 +11,7 @@ import mypy.nodes as mp_nodes
 import mypy.types as mp_types
 
 import safeds_stubgen.api_analyzer._types as sds_types
-from safeds_stubgen import is_internal
+from safeds_stubgen import escape_string_literal, is_internal
 from safeds_stubgen.api_analyzer._type_source_enums import TypeSourcePreference, TypeSourceWarning
 from safeds_stubgen.docstring_parsing import ResultDocstring
 
@@ -982,7 +982,7 @@ class MyPyAstVisitor:
                 if isinstance(inferred_default_value, bool | int | float | NoneType):
                     default_value = inferred_default_value
                 elif isinstance(inferred_default_value, str):
-                    default_value = f'"{inferred_default_value}"'
+                    default_value = escape_string_literal(inferred_default_value)
                 else:  # pragma: no cover
                     raise TypeError("Default value got an unsupported value.")
 
